@@ -193,6 +193,16 @@ def required_labels(tier):
     return ['boosted', 'not-boostable', 'no-boost', 'boost', 'req-None', 'req-H', 'M1', 'M2', 'M3', 'M4', 'multi-part', 'sequence', 'seq-symbols-n']
 
 
+def _fuzz(tier):
+    """Coverage-guided phase (atheris), thorough tier (or VERIF_FUZZ_RUNS=<n> in any tier)."""
+    import os
+    runs = int(os.environ.get('VERIF_FUZZ_RUNS', '0' if tier == 'quick' else '320000'))
+    if not runs:
+        return []
+    from .. import fuzz
+    return [fuzz.fuzz_phase(__name__, runs)]
+
+
 def phases(tier, seed):
     n = 9600 if tier == 'quick' else 300000
     return [
@@ -201,4 +211,4 @@ def phases(tier, seed):
         Enum('sequences', lambda: sequence_cases(tier), exhaustive=False,
              note='every symbol of Structured Append sequences: content lengths 2..119 (thorough: ..699) x 3 modes x 8 option sets'),
         Search('free', gens.make_cases(big=0.05), n),
-    ]
+    ] + _fuzz(tier)
